@@ -112,49 +112,55 @@ theorem expandFull_abs (H : Bytes → Bytes) (st : Store) (t : Node) :
 /-! ### the simulation between the live machine and the loaded machine -/
 
 /-- the live trie `lt` stands for the loaded trie `t` -/
-structure Sim (H : Bytes → Bytes) (lt : LTrie) (t : Node) : Prop where
+structure Sim (H : Bytes → Bytes) (U : Node → Prop) (lt : LTrie) (t : Node) : Prop where
   wf : WFRoot t
   abs : AbsR H lt.db false t lt.root
-  sound : StoreSound H lt.db
+  sound : StoreSound H U lt.db
 
-/-- what is assumed of the hash function: no collision among node encodings, and no node
-    encoding hashes to the two constants `NewTrie` treats as "empty trie" -/
-structure HashOK (H : Bytes → Bytes) : Prop where
-  nocoll : NoColl H
-  noconst : ∀ t, WF t → H (enc H t) ≠ emptyRoot ∧ H (enc H t) ≠ List.replicate 32 0
+/-- what is assumed of the hash function **on the universe `U` of nodes that occur** (closed under
+    children): no collision among their encodings, none of them hashes to one of the two constants
+    `NewTrie` treats as "empty trie", digests are 32 bytes.  (For all nodes at once this would be
+    unsatisfiable by a 32-byte hash; for the finitely many nodes of a history it is the usual
+    collision-freeness assumption, and `Props.C02Live` exhibits a history and a hash satisfying it.) -/
+structure HashOK (H : Bytes → Bytes) (U : Node → Prop) : Prop where
+  nocoll : NoColl H U
+  closed : ClosedU U
+  noconst : ∀ t, U t → WF t → H (enc H t) ≠ emptyRoot ∧ H (enc H t) ≠ List.replicate 32 0
   len32 : ∀ x, (H x).length = 32
 
-theorem sim_empty (H : Bytes → Bytes) : Sim H LTrie.empty .nil :=
+theorem sim_empty (H : Bytes → Bytes) (U : Node → Prop) : Sim H U LTrie.empty .nil :=
   ⟨Or.inl rfl, AbsR_nil.mpr rfl, fun h c hl => by simp [LTrie.empty] at hl⟩
 
-theorem root_nil_iff {H : Bytes → Bytes} {lt : LTrie} {t : Node} (h : Sim H lt t) : lt.root = .nil ↔ t = .nil := by
+variable {U : Node → Prop}
+
+theorem root_nil_iff {H : Bytes → Bytes} {lt : LTrie} {t : Node} (h : Sim H U lt t) : lt.root = .nil ↔ t = .nil := by
   have := h.abs.nil_iff
   constructor
   · intro h0; rw [h0] at this; exact (isNil_iff t).mp (by simpa [isNilL] using this.symm)
   · intro h0; rw [h0] at this
     cases hr : lt.root <;> simp_all [isNilL, isNil]
 
-theorem sim_hashL {H : Bytes → Bytes} (hok : HashOK H) {lt : LTrie} {t : Node} (h : Sim H lt t) (hwf : WF t)
+theorem sim_hashL {H : Bytes → Bytes} (hok : HashOK H U) {lt : LTrie} {t : Node} (h : Sim H U lt t) (hwf : WF t) (hU : U t)
     (withDb : Bool) :
     let r := hashL H lt.gen lt.limit withDb lt.root true lt.db
-    refHash r.1 = rootHash H t ∧ AbsR H r.2.2 false t r.2.1 ∧ StoreSound H r.2.2 ∧
+    refHash r.1 = rootHash H t ∧ AbsR H r.2.2 false t r.2.1 ∧ StoreSound H U r.2.2 ∧
     (withDb = false → r.2.2 = lt.db) ∧
     (withDb = true → Stored H r.2.2 t ∧ r.2.2.lookup (H (enc H t)) = some (collapse H t)) := by
-  have hs := hashL_spec hok.nocoll lt.gen lt.limit withDb t hwf false lt.root lt.db h.sound h.abs
+  have hs := hashL_spec hok.nocoll hok.closed lt.gen lt.limit withDb t hwf hU false lt.root lt.db h.sound h.abs
   simp only [Bool.not_false] at hs
   obtain ⟨s1, s2, s3, s4, s5, s6⟩ := hs
   refine ⟨?_, s2, s4, s6, fun hw => ⟨(s5 hw).1, (s5 hw).2 rfl⟩⟩
   rw [s1, rootHash_of_ne_nil H t hwf.ne_nil]
   simp [refHash]
 
-theorem sim_hash {H : Bytes → Bytes} (hok : HashOK H) {lt : LTrie} {t : Node} (h : Sim H lt t) :
-    (lt.hash H).1 = rootHash H t ∧ Sim H (lt.hash H).2 t := by
+theorem sim_hash {H : Bytes → Bytes} (hok : HashOK H U) {lt : LTrie} {t : Node} (h : Sim H U lt t) (hU : U t) :
+    (lt.hash H).1 = rootHash H t ∧ Sim H U (lt.hash H).2 t := by
   rcases h.wf with rfl | hwf
   · have hr := (root_nil_iff h).mpr rfl
     simp only [LTrie.hash, hr]
     exact ⟨rfl, h⟩
   · have hne : lt.root ≠ .nil := fun h0 => hwf.ne_nil ((root_nil_iff h).mp h0)
-    obtain ⟨s1, s2, s3, s4, _⟩ := sim_hashL hok h hwf false
+    obtain ⟨s1, s2, s3, s4, _⟩ := sim_hashL hok h hwf hU false
     have heq : lt.hash H = (refHash (hashL H lt.gen lt.limit false lt.root true lt.db).1,
         { lt with root := (hashL H lt.gen lt.limit false lt.root true lt.db).2.1 }) := by
       unfold LTrie.hash
@@ -168,8 +174,8 @@ theorem sim_hash {H : Bytes → Bytes} (hok : HashOK H) {lt : LTrie} {t : Node} 
     rw [this] at s2
     exact s2
 
-theorem sim_commit {H : Bytes → Bytes} (hok : HashOK H) {lt : LTrie} {t : Node} (h : Sim H lt t) :
-    (lt.commit H).1 = rootHash H t ∧ Sim H (lt.commit H).2 t ∧
+theorem sim_commit {H : Bytes → Bytes} (hok : HashOK H U) {lt : LTrie} {t : Node} (h : Sim H U lt t) (hU : U t) :
+    (lt.commit H).1 = rootHash H t ∧ Sim H U (lt.commit H).2 t ∧
     (WF t → (lt.commit H).2.db.lookup (H (enc H t)) = some (collapse H t) ∧ Stored H (lt.commit H).2.db t) := by
   rcases h.wf with rfl | hwf
   · have hr := (root_nil_iff h).mpr rfl
@@ -177,7 +183,7 @@ theorem sim_commit {H : Bytes → Bytes} (hok : HashOK H) {lt : LTrie} {t : Node
     refine ⟨rfl, ⟨Or.inl rfl, ?_, h.sound⟩, fun hw => absurd hw not_WF_nil⟩
     simp only [hr]; exact AbsR_nil.mpr rfl
   · have hne : lt.root ≠ .nil := fun h0 => hwf.ne_nil ((root_nil_iff h).mp h0)
-    obtain ⟨s1, s2, s3, _, s5⟩ := sim_hashL hok h hwf true
+    obtain ⟨s1, s2, s3, _, s5⟩ := sim_hashL hok h hwf hU true
     have heq : lt.commit H = (refHash (hashL H lt.gen lt.limit true lt.root true lt.db).1,
         { lt with root := (hashL H lt.gen lt.limit true lt.root true lt.db).2.1,
                   db := (hashL H lt.gen lt.limit true lt.root true lt.db).2.2,
@@ -189,9 +195,9 @@ theorem sim_commit {H : Bytes → Bytes} (hok : HashOK H) {lt : LTrie} {t : Node
     rw [heq]
     exact ⟨s1, ⟨Or.inr hwf, s2, s3⟩, fun _ => ⟨(s5 rfl).2, (s5 rfl).1⟩⟩
 
-theorem sim_reopen {H : Bytes → Bytes} (hok : HashOK H) {lt : LTrie} {t : Node} (h : Sim H lt t) :
-    (lt.reopen H).2 = .root (rootHash H t) ∧ Sim H (lt.reopen H).1 t := by
-  obtain ⟨c1, c2, c3⟩ := sim_commit hok h
+theorem sim_reopen {H : Bytes → Bytes} (hok : HashOK H U) {lt : LTrie} {t : Node} (h : Sim H U lt t) (hU : U t) :
+    (lt.reopen H).2 = .root (rootHash H t) ∧ Sim H U (lt.reopen H).1 t := by
+  obtain ⟨c1, c2, c3⟩ := sim_commit hok h hU
   unfold LTrie.reopen
   simp only []
   rcases h.wf with rfl | hwf
@@ -200,7 +206,7 @@ theorem sim_reopen {H : Bytes → Bytes} (hok : HashOK H) {lt : LTrie} {t : Node
     exact ⟨rfl, ⟨Or.inl rfl, AbsR_nil.mpr rfl, c2.sound⟩⟩
   · obtain ⟨hlk, hst⟩ := c3 hwf
     have hrh : (lt.commit H).1 = H (enc H t) := by rw [c1, rootHash_of_ne_nil H t hwf.ne_nil]
-    obtain ⟨hn1, hn2⟩ := hok.noconst t hwf
+    obtain ⟨hn1, hn2⟩ := hok.noconst t hU hwf
     have e1 : (H (enc H t) == emptyRoot) = false := beq_false_of_ne hn1
     have e2 : (H (enc H t) == List.replicate 32 0) = false := beq_false_of_ne hn2
     have hho : HashOf H (lt.commit H).2.db false t (.hash (H (enc H t))) :=
@@ -210,11 +216,11 @@ theorem sim_reopen {H : Bytes → Bytes} (hok : HashOK H) {lt : LTrie} {t : Node
     exact ⟨by rw [rootHash_of_ne_nil H t hwf.ne_nil], ⟨Or.inr hwf, Or.inl habs, c2.sound⟩⟩
 
 /-- the disk variant: the root blob is decoded instead of expanded from the memory cache -/
-theorem sim_reopenDisk {H : Bytes → Bytes} (hok : HashOK H) {lt : LTrie} {t : Node} (h : Sim H lt t)
+theorem sim_reopenDisk {H : Bytes → Bytes} (hok : HashOK H U) {lt : LTrie} {t : Node} (h : Sim H U lt t) (hU : U t)
     (hsz : (enc H t).length < 256 ^ 8) :
-    (lt.reopenDisk H).2 = .root (rootHash H t) ∧ Sim H (lt.reopenDisk H).1 t := by
-  obtain ⟨c1, c2, c3⟩ := sim_commit hok h
-  have hmem := sim_reopen hok h
+    (lt.reopenDisk H).2 = .root (rootHash H t) ∧ Sim H U (lt.reopenDisk H).1 t := by
+  obtain ⟨c1, c2, c3⟩ := sim_commit hok h hU
+  have hmem := sim_reopen hok h hU
   unfold LTrie.reopenDisk
   unfold LTrie.reopen at hmem
   simp only [] at hmem ⊢
@@ -231,10 +237,10 @@ theorem sim_reopenDisk {H : Bytes → Bytes} (hok : HashOK H) {lt : LTrie} {t : 
 
 theorem fuelFor_ok (k : Key) : 2 * k.length + 2 ≤ fuelFor k := by unfold fuelFor; omega
 
-theorem sim_step {H : Bytes → Bytes} (hok : HashOK H) (F : Nat) {lt : LTrie} {t : Node} (h : Sim H lt t)
-    (hF : 2 * height t + 2 ≤ F) (hsz : (enc H t).length < 256 ^ 8) (op : Op) :
-    (lstep H F lt op).2 = (nstep H t op).2 ∧ Sim H (lstep H F lt op).1 (nstep H t op).1 := by
-  have hdel : ∀ k, ∃ lt', lt.remove k = some lt' ∧ Sim H lt' (remove t k) := by
+theorem sim_step {H : Bytes → Bytes} (hok : HashOK H U) (F : Nat) {lt : LTrie} {t : Node} (h : Sim H U lt t)
+    (hF : 2 * height t + 2 ≤ F) (hsz : (enc H t).length < 256 ^ 8) (hU : U t) (op : Op) :
+    (lstep H F lt op).2 = (nstep H t op).2 ∧ Sim H U (lstep H F lt op).1 (nstep H t op).1 := by
+  have hdel : ∀ k, ∃ lt', lt.remove k = some lt' ∧ Sim H U lt' (remove t k) := by
     intro k
     obtain ⟨l', hd, habs⟩ := deleteL_refines H lt.db lt.gen t false lt.root (keybytesToHex k) _ h.wf
       (validKey_keybytesToHex k) h.abs (fuelFor_ok _)
@@ -271,18 +277,18 @@ theorem sim_step {H : Bytes → Bytes} (hok : HashOK H) (F : Nat) {lt : LTrie} {
     | true => exact ⟨h.wf, habs, h.sound⟩
   | hash =>
     simp only [lstep, nstep]
-    obtain ⟨h1, h2⟩ := sim_hash hok h
+    obtain ⟨h1, h2⟩ := sim_hash hok h hU
     exact ⟨by rw [h1], h2⟩
   | commit =>
     simp only [lstep, nstep]
-    obtain ⟨h1, h2, _⟩ := sim_commit hok h
+    obtain ⟨h1, h2, _⟩ := sim_commit hok h hU
     exact ⟨by rw [h1], h2⟩
-  | reopen => simp only [lstep, nstep]; exact sim_reopen hok h
-  | dbcommit => simp only [lstep, nstep]; exact sim_reopenDisk hok h hsz
+  | reopen => simp only [lstep, nstep]; exact sim_reopen hok h hU
+  | dbcommit => simp only [lstep, nstep]; exact sim_reopenDisk hok h hU hsz
   | cachelimit n => simp only [lstep, nstep]; exact ⟨trivial, ⟨h.wf, h.abs, h.sound⟩⟩
   | iter start =>
     simp only [lstep, nstep]
-    obtain ⟨_, h2⟩ := sim_hash hok h
+    obtain ⟨_, h2⟩ := sim_hash hok h hU
     rw [expandFull_abs H _ t h2.wf false _ F h2.abs hF]
     exact ⟨rfl, h2⟩
 
